@@ -182,6 +182,10 @@ def run(prog, rep):
     ct = Container(prog)
     rep.attempt(M.dirty_entry, ct, rep, rule="table-pairing")
     rep.attempt(M.eq_on_decoded_content, ct, rep)
+    # .. and an edit always re-encodes: replace_block is remove + add on every path, never skipped because the stored block DECODES equal
+    # (decoded equality ignores the don't-care bytes that the re-encoding is there to canonicalise)
+    from .c11 import replace_composition
+    rep.attempt(replace_composition, ct, rep)
     # .. and positions the cursor only on whole table slots or data ranges: a seek INTO a slot is the start of a partial rewrite
     rep.attempt(M.header_frame, ct, rep, rule="table-pairing/frame")
     rep.attempt(PR.string_codec, prog, rep, with_nul_cut=False)
